@@ -203,3 +203,13 @@ Definition with_defines (ds : list (string * string)) (body : list (list piece))
 
 Definition substituted (ds : list (string * string)) (body : list (list piece)) : list string :=
   HEADER ++ map (subst ds) body.
+
+(* ---------- text in, instruction objects out ---------- *)
+
+(* parse_text_subroutine on the lines of a text: None = the front end rejects the text *)
+Definition assemble_text (pr : aparams) (bk : banks) (gi : list string) (t : list row) (lines : list string)
+  : option (ares (list (row * list operand))) :=
+  match parse_text bk gi lines with
+  | Some P => Some (assemble pr t P)
+  | None => None
+  end.
